@@ -64,6 +64,31 @@ CHECKS["C20"]=dict(text="Every config placement (3 values x 4 positions) on 4 sk
   note="Trusted: the pruning reference and the canonical dump (defchildren/hasdefault are derived fields and excluded).",
   technique="bounded exhaustive enumeration of module sets x all filter combinations with a differential (prune-the-unfiltered) oracle", ref="DESIGN.md §4 C20")
 NOT_YET = {}
+
+# additions made after the seeding rounds (see DESIGN.md 9.7/9.8)
+ADD = {
+ "C02": " Each expression is compiled once and the same machine is run on the 4 context positions in turn; the last run is also compared, raw requests included, with a machine compiled for that run alone.",
+ "C03": " Unary minus is repeated 0-3 times per operand; white-space variants also with everything removed except one boundary, over one-character names, one-digit numbers and literals with a leading blank.",
+ "C04": " The alphabets contain non-XPath white space (NBSP, FF) and non-ASCII identifiers; prefixed names also occur as three tokens in the mutation corpus; disagreements that need two known deviations at once are attributed to both.",
+ "C05": " The alphabet contains '%', '%s' and LF.",
+ "C06": " Run operations carry one of two context positions (different data), one machine has a '..'-rooted predicate operand, and the isolated reference compiles a fresh machine per run; the channel/select model of the scheduler is self-checked against Go's semantics on 8 toy programs at the start of every run.",
+ "C07": " When an execution is not a producer/consumer pair on one channel (a select, a second channel, a lock, a third thread) every schedule within the preemption bound is explored for that input; select statements are supported by instrumenter and scheduler.",
+ "C08": " Line breaks are LF or CRLF independently per line; the raw text of a string is also repeated later in the statement (comment, second piece); every string of <=5 symbols over {a, blank, \\\\, \\n, \\t, \\\"} is decoded.",
+ "C09": " Argument probes include Unicode white space; for every ordered pair of argument kinds and every probe valid for the first and invalid for the second, a module with both statements (both orders) must be rejected.",
+ "C10": " The menu has a multi-line double-quoted argument whose value depends on the quote column; comment trivia include copies of that raw text and comments made of comment delimiters; every string of <=4 escape symbols is checked double- and single-quoted.",
+ "C11": " Further module sets: same-named clean and cyclic definitions across modules and sibling scopes, cycles through deep uses, defects in the second of two references, imports written only in a submodule, non-commuting deviations from unrelated modules; erroneous sets are also compiled with all features enabled.",
+ "C12": " Further: nested uses below the top level of a grouping, groupings defined in nested and sibling scopes, augment-with-when and augment-with-nested-uses modifications, and two modules using one imported grouping with every pair of modifications in one compilation.",
+ "C13": " Families: one typedef chain of depth 1-5 used by 2 or 3 leaves of one module with different restrictions, each leaf judged as if it were the only user.",
+ "C14": " Features are split over two modules in every dependency-closed way; deviate delete of each of three same-keyword statements; status on a uses/augment x own status of the introduced node.",
+ "C15": " Further placements: a when written on a uses/augment (foreign, local, nested), a must added by a refine, a second must after a valid one; and pairs of statements (one of module a ending up in b, one written in b) in one compilation.",
+ "C16": " Every decimal64 fraction-digits value 1..18; alternation and anchor patterns; every probe is validated on the type compiled alone and on the same type as one leaf of a module holding all types over a shared 3-level typedef chain.",
+ "C17": " Additionally every schema forest of the C18 generator (<=3 / <=4 nodes, leaf types in rotation) x every token path of <=4 / <=5 tokens; every path is validated three times on one compiled schema (incomplete allowed, strict, allowed).",
+ "C18": " Additionally every schema forest of <=3 nodes (quick: plus all 4-node schemas x small trees; thorough: <=4 nodes) generated from the grammar leaf/leaf-list/container/list/choice/case with all flag variants x every data tree up to the data bound.",
+ "C19": " Additionally every generated schema (C18 generator, <=3 / <=4 nodes) x every valid data tree x 3 encodings; identities of the same name in two modules; identityref XML inputs with explicit prefix bindings; strings with backslashes.",
+ "C20": " Additionally every generated schema (<=2 / <=3 nodes) with config false on 0, 1 (2) nodes; choices with defaults under lists, cases, nested lists and at the module top; config on key leaves; the pruning reference is alias-aware.",
+}
+for k, v in ADD.items():
+    CHECKS[k]["text"] += v
 props=[json.loads(l) for l in open('/verif/properties.jsonl')]
 checks=[]; na=[]
 for p in props:
